@@ -10,15 +10,15 @@ ENV = None
 #  pred: name of the executable trace predicate in the Lean driver
 #  module: Lean module with the property theorems (HLV/Props/<module>.lean)
 PROPS = {
-    "C03": dict(families=["acq", "panic", "fault"], pred="C03"),
+    "C03": dict(families=["acq", "panic", "fault", "hist"], pred="C03"),
     "C04": dict(families=["acq"], pred="C04"),
     "C05": dict(families=["acq", "panic", "fault"], pred="C05"),
-    "C08": dict(families=["acq"], pred="C08"),
-    "C09": dict(families=["acq"], pred="C09"),
+    "C08": dict(families=["order", "acq"], pred="C08"),
+    "C09": dict(families=["acq", "fault"], pred="C09"),
     "C11": dict(families=["panic"], pred="C11"),
     "C12": dict(families=["fault"], pred="C12"),
     "C13": dict(families=["acq"], pred="C13"),
-    "C17": dict(families=["acq"], pred="C17"),
+    "C17": dict(families=["nonacq"], pred="C17"),
 }
 
 def sh(cmd, cwd=None, timeout=None, inp=None):
